@@ -180,6 +180,59 @@ def MStore.viewProposals (utype now : Nat) (s : MStore) : List Proposal × MStor
 def removeFromMetadataHook (tg : String → Nat) (surfaced : List (List Proposal)) (s : MStore) : MStore :=
   surfaced.foldl (fun s round => round.foldl (fun s p => s.removeProposals tg [p]) s) s
 
+/-! ### build hooks of the observation (`AddLogProposalsHook`, `AddConditionalProposalsHook`)
+
+`RunHook` views the pending set of its type, passes it through the coordinator's filter (nothing is in
+flight in the histories of this property: the filter is the identity; C07 is about the filter), shuffles
+with a source keyed by config digest and sequence number, and keeps the first `limit`.  The shuffle is
+explicit: `order` lists work ids in the order the shuffle leaves them (ids it does not list follow in
+view order), so every permutation of the view is `shuffleBy order view` for some duplicate-free
+`order`, and nothing else is. -/
+
+def shuffleBy (order : List String) (view : List Proposal) : List Proposal :=
+  order.filterMap (fun k => view.find? (fun p => p.workID == k)) ++
+    view.filter (fun p => !order.contains p.workID)
+
+/-- `if len(proposals) > limit { proposals = proposals[:limit] }` -/
+def cutTo (limit : Nat) (l : List Proposal) : List Proposal :=
+  if l.length > limit then l.take limit else l
+
+/-- what the hook appends to the observation, given what `ViewProposals` returned -/
+def observeHook (limit : Nat) (order : List String) (view : List Proposal) : List Proposal :=
+  cutTo limit (shuffleBy order view)
+
+/-- `RunHook`: the proposals added to the observation and the store after the view (expired purged) -/
+def MStore.observe (utype limit now : Nat) (order : List String) (s : MStore) : List Proposal × MStore :=
+  (observeHook limit order (s.viewProposals utype now).1, (s.viewProposals utype now).2)
+
+/-! ### the proposal filterer (`preprocessors.proposalFilterer`, first stage of the recovery proposal flow)
+
+`PreProcess` views the pending proposals of its type and lets those payloads pass whose work id is not among
+them (a payload is modelled by the proposal the flow would make of it: upkeep id, trigger, work id). -/
+
+def filterPayloads (view : List Proposal) (ps : List Proposal) : List Proposal :=
+  ps.filter (fun p => !view.any (fun v => v.workID == p.workID))
+
+def MStore.filterer (utype now : Nat) (ps : List Proposal) (s : MStore) : List Proposal × MStore :=
+  (filterPayloads (s.viewProposals utype now).1 ps, (s.viewProposals utype now).2)
+
+/-! ### life cycle of the store (`Start` / `Close`)
+
+`Start` flags the service as running and then only moves block histories from the subscription into
+`blockHistory`; `Close` unsubscribes and stops that loop.  Neither touches the pending sets, and
+`AddProposals` / `ViewProposals` / `RemoveProposals` do not look at the flag: a store that has not been
+started yet, is running, or was closed (and possibly started again) holds the same proposals. -/
+
+structure Life where
+  running : Bool
+deriving DecidableEq, Repr
+
+/-- `Start`: refused (`service already running`) when running, otherwise the flag is set -/
+def Life.start (l : Life) : Life × Bool := if l.running then (l, false) else ({ running := true }, true)
+
+/-- `Close`: refused (`service not running`) when not running, otherwise the flag is cleared -/
+def Life.close (l : Life) : Life × Bool := if !l.running then (l, false) else ({ running := false }, true)
+
 /-! ### proposal queue -/
 
 /-- `proposalQueueRecord` -/
@@ -254,12 +307,19 @@ inductive Op where
     -- `BuildPayloads`; `ok` = the payload builder (an external dependency) returned no error.
     -- On an error `Value` returns it and the observer hands nothing on; the records stay dequeued.
     -- The output of the operation is what reaches the runner of the finalisation flow.
+  | observe (t limit : Nat) (order : List String)
+    -- a build hook of the observation runs for upkeep type `t` (`MStore.observe`); the output is what it
+    -- adds to the observation = what the node proposes this round
+  | svc (start : Bool)                       -- MetadataStore.Start (true) / Close (false)
+  | filter (t : Nat) (ps : List Proposal)
+    -- the proposal filterer of upkeep type `t` pre-processes the payloads `ps`; the output is what passes
 deriving DecidableEq, Repr
 
 structure St where
   ms  : MStore
   q   : Queue
   now : Nat
+  life : Life := { running := false }   -- the metadata store's service state
 deriving DecidableEq, Repr
 
 def St.init (now : Nat) : St := { ms := MStore.empty, q := [], now := now }
@@ -269,6 +329,8 @@ def stepOut (tg : String → Nat) (st : St) : Op → Option (List Proposal)
   | .view t => some (st.ms.viewProposals t st.now).1
   | .deq t n order => some (dequeue tg t n st.now order st.q).1
   | .tick t n order ok => some (if ok then (dequeue tg t n st.now order st.q).1 else [])
+  | .observe t limit order => some (st.ms.observe t limit st.now order).1
+  | .filter t ps => some (st.ms.filterer t st.now ps).1
   | _ => none
 
 def step (tg : String → Nat) (st : St) : Op → St
@@ -280,6 +342,10 @@ def step (tg : String → Nat) (st : St) : Op → St
   | .deq t n order => { st with q := (dequeue tg t n st.now order st.q).2 }
   | .outcome sf => { st with ms := removeFromMetadataHook tg sf st.ms, q := addToProposalQHook st.now sf st.q }
   | .tick t n order _ => { st with q := (dequeue tg t n st.now order st.q).2 }
+  | .observe t limit order => { st with ms := (st.ms.observe t limit st.now order).2 }
+  | .filter t ps => { st with ms := (st.ms.filterer t st.now ps).2 }
+  | .svc start =>   -- the pending sets, the queue and the clock are not touched (see `Life`)
+    { st with life := if start then st.life.start.1 else st.life.close.1 }
 
 /-- outputs of a history, one entry per operation -/
 def run (tg : String → Nat) : List Op → St → List (Option (List Proposal))
